@@ -18,7 +18,18 @@ ASSUMPTIONS = ["closeness to a root of the exact trajectory is judged at 50 x to
                "admissible outcome, and an implementation outcome that differs only in the order of such ties (and in which tie-mates of a terminal "
                "event precede it) is accepted as corresponding"]
 
-METHODS = ["RK4Solver", "RK45CKSolver", "DOPRI45", "RK8713MSolver", "ABAs5o6HSolver"]
+METHODS = ["RK4Solver", "RK45CKSolver", "DOPRI45", "RK8713MSolver", "ABAs5o6HSolver", "Richardson(RK4Solver,3)"]
+_RICH = {}
+
+
+def method_class(name):
+    """a registry name, or a Richardson wrapper (which adds several dense pieces per step)"""
+    if name.startswith("Richardson("):
+        if name not in _RICH:
+            base, lev = name[len("Richardson("):-1].split(",")
+            _RICH[name] = de.integrators.generate_richardson_integrator(getattr(I, base), int(lev))
+        return _RICH[name]
+    return getattr(I, name)
 EPS = eventsim.EPS
 
 
@@ -67,7 +78,54 @@ def gen_scenario(rng, focus):
         method, dt = "RK4Solver", 0.25
         t0, tf = (0.0, 2.0) if not backward else (2.0, 0.0)
         evs = [eventsim.make_event("time", 0.5, 1.0, 0, False), eventsim.make_event("time", 0.75 if not backward else 1.25, 1.0, 0, False)]
-    return dict(method=method, t0=t0, tf=tf, dt=dt, dense=dense), evs
+    elif rng.random() < 0.2:
+        # several functions with the SAME zeros (one level, different scales / orientations), crossed repeatedly: every one of them has
+        # to be reported at every crossing, however many share the instant
+        kind = rng.choice(["y0", "y0", "y1"])
+        c = rng.choice([0.3, -0.5, 0.25, 0.5])
+        span = rng.uniform(7.0, 11.0)
+        tf = t0 - span if backward else t0 + span
+        scales = [1.0, -1.0, 1e3, 1e-3, 10.0, -1e2] if focus == "C08" else [1.0, -1.0, 10.0, 1e-1]
+        evs = [eventsim.make_event(kind, c, s_, 0, False) for s_ in rng.sample(scales, rng.choice([2, 3]))]
+    omega = 1.0
+    if focus in ("C08", "all") and rng.random() < 0.2:
+        # a slow circle: steps that are long in absolute time, next to (or across) t = 0, with steep event functions
+        omega = 0.05
+        method = rng.choice(["RK4Solver", "RK45CKSolver", "RK8713MSolver", "DOPRI45"])
+        t0 = rng.choice([0.0, 0.0, -40.0, 40.0])
+        tf = (t0 + 80.0 if t0 < 0 else (t0 - 80.0 if t0 > 0 else (-40.0 if backward else 40.0)))
+        dt = 10.0
+        # the level is met inside a step that has t = 0 as one end (or inside it), at |t| >= 1.5
+        tc = rng.uniform(1.5, 8.0) * (rng.choice([1.0, -1.0]) if t0 != 0.0 else (-1.0 if backward else 1.0))
+        c = math.cos(omega * (tc - t0))
+        evs = [eventsim.make_event("y0", c, s_ * rng.choice([1, -1]), 0, False) for s_ in rng.sample([1e-6, 1e-3, 1.0, 1e3, 1e6, 1e2], rng.choice([1, 2, 3]))]
+    sc = dict(method=method, t0=t0, tf=tf, dt=dt, dense=dense)
+    if omega != 1.0:
+        sc["omega"] = omega
+    return sc, evs
+
+
+def slow_scenarios(rng):
+    """every run: steps long in absolute time with t = 0 as an end point, the crossing at 1.5 <= |t| <= 8 inside such a step, all scales
+    at once.  The level is chosen where the event function moves by MORE than its own floating-point spacing per ulp of time (a zero of the
+    unscaled function far from t = 0), so that no representable time makes it vanish exactly and only a root finder that accepts the
+    narrowest possible bracket reports the steep crossings."""
+    out = []
+    omega = 0.05
+    scales = [1e-6, 1e-3, 1.0, 1e3, 1e6]
+    for (t0, tf) in [(-30.0, 30.0), (30.0, -30.0)]:
+        for side in (1.0, -1.0):
+            tc = rng.uniform(1.5, 8.0) * side
+            c = math.cos(omega * (tc - t0))
+            evs = [eventsim.make_event("y0", c, s_ * rng.choice([1, -1]), 0, False) for s_ in scales]
+            out.append((dict(method="RK4Solver", t0=t0, tf=tf, dt=10.0, dense=rng.random() < 0.5, omega=omega), evs))
+    for method in ["RK4Solver", "RK8713MSolver"]:
+        for (t0, tf) in [(0.0, 40.0), (0.0, -40.0)]:
+            tc = rng.uniform(1.5, 6.0) * (1.0 if tf > 0 else -1.0)
+            c = -math.sin(omega * (tc - t0))
+            evs = [eventsim.make_event("y1", c, s_ * rng.choice([1, -1]), 0, False) for s_ in scales]
+            out.append((dict(method=method, t0=t0, tf=tf, dt=10.0, dense=rng.random() < 0.5, omega=omega), evs))
+    return out
 
 
 def analyse(ctx, sc, evs, ode, spy, exc, focus, lines, pending):
@@ -75,7 +133,8 @@ def analyse(ctx, sc, evs, ode, spy, exc, focus, lines, pending):
     inp = dict(kind="events", **desc)
     backward = sc["tf"] < sc["t0"]
     d = -1.0 if backward else 1.0
-    exact = eventsim.harmonic_exact(sc["t0"])
+    omega = sc.get("omega", 1.0)
+    exact = eventsim.harmonic_exact(sc["t0"], omega)
     if exc is not None:
         ctx.oracle("event-run-succeeds", False, dict(inp, error=repr(exc)[:200]), what="integration with events raised %r" % (exc,))
         return
@@ -108,7 +167,7 @@ def analyse(ctx, sc, evs, ode, spy, exc, focus, lines, pending):
             hv = eventsim.exact_h(kind, te, exact)
             hmax = float(np.max(np.abs(np.diff(t)))) if len(t) > 1 else 0.0
             # the root is located on the cubic Hermite dense output, whose error is O(h^4) (O(h^3) for its derivative)
-            cubic = 0.5 * hmax ** (3 if kind == "deriv" else 4)
+            cubic = 0.5 * (omega * hmax) ** (3 if kind == "deriv" else 4)
             if abs(hv - c) <= 50 * tol_loc:
                 ctx.oracle("event-near-true-root", True)
             else:
@@ -156,7 +215,7 @@ def analyse(ctx, sc, evs, ode, spy, exc, focus, lines, pending):
                         # the stop itself is located on the cubic dense output (finding P23): a crossing closer to the located stop than
                         # that location error may fall on either side of it
                         hmax_ = float(np.max(np.abs(np.diff(t))))
-                        near_stop = abs(b) <= 2.0 * abs(g.desc["s"]) * 0.5 * hmax_ ** 4
+                        near_stop = abs(b) <= 2.0 * abs(g.desc["s"]) * 0.5 * (omega * hmax_) ** 4
                     if not found:
                         # classify: did the bracketing root finder refuse the (steep) crossing?
                         # (the recorded samples include the event points themselves, so the integrator step is the one that CONTAINS [lo, hi])
@@ -185,7 +244,7 @@ def analyse(ctx, sc, evs, ode, spy, exc, focus, lines, pending):
                         ctx.oracle("last-state-on-event-surface", True)
                     else:
                         ctx.oracle("last-state-on-event-surface", False, dict(inp, residual=gv, largest_step=hmax),
-                                   key="event-location-limited-by-cubic-dense-output" if gv <= 0.5 * hmax ** 4 else "last-state-off-event-surface",
+                                   key="event-location-limited-by-cubic-dense-output" if gv <= 0.5 * (omega * hmax) ** 4 else "last-state-off-event-surface",
                                    what="|h - c| = %.3e at the last recorded state (largest step %.3g)" % (gv, hmax))
                 ctx.oracle("nothing-beyond-the-event", all((te - x) * d >= -1e-12 for x in t), inp, what="samples recorded beyond the terminal event")
                 ctx.oracle("no-event-beyond-the-stop", all((te - x) * d >= -1e-9 for (_, x, _) in reported), dict(inp, events=[(i, x) for i, x, _ in reported], stop=te),
@@ -202,8 +261,8 @@ def analyse(ctx, sc, evs, ode, spy, exc, focus, lines, pending):
                     ode.integrate()
                     ok = abs(float(ode.t[-1]) - sc["tf"]) <= 1e-9 and bool(np.all(np.diff(np.array(ode.t)) * d > 0)) and loop_status(ode) == 1
                     err = float(np.max(np.abs(ode.y[-1] - exact(float(ode.t[-1])))))
-                    plain = de.OdeSystem(eventsim.harmonic, y0=np.array([1.0, 0.0]), t=(sc["t0"], sc["tf"]), dt=sc["dt"], rtol=1e-9, atol=1e-11)
-                    plain.set_method(getattr(I, sc["method"]))
+                    plain = de.OdeSystem(eventsim.harmonic_w(omega), y0=np.array([1.0, 0.0]), t=(sc["t0"], sc["tf"]), dt=sc["dt"], rtol=1e-9, atol=1e-11)
+                    plain.set_method(method_class(sc["method"]))
                     plain.integrate()
                     err_plain = float(np.max(np.abs(plain.y[-1] - exact(float(plain.t[-1])))))
                     ctx.oracle("continues-after-stop", ok and err <= 5 * err_plain + 1e-7, dict(inp, end=float(ode.t[-1]), err=err, status=ode.integration_status),
@@ -217,6 +276,10 @@ def analyse(ctx, sc, evs, ode, spy, exc, focus, lines, pending):
     ctx.count("dir:" + ("bwd" if backward else "fwd"))
     ctx.count("dense:" + str(sc["dense"]))
     ctx.count("nev:%d" % len(evs))
+    if omega != 1.0:
+        ctx.count("slow-circle-long-steps")
+    if len(evs) >= 2 and len(set((e.desc["kind"], e.desc["c"]) for e in evs)) == 1:
+        ctx.count("coincident-zeros:%s" % ("repeated" if abs(sc["tf"] - sc["t0"]) * omega > 6.5 else "single-pass"))
     ctx.count("terminal-hit" if terminal_hit else "ran-to-end")
     ctx.sample(desc, limit=3)
 
@@ -251,9 +314,10 @@ def tie_equivalent(impl, model, probes):
 def run_focus(ctx, focus, n_quick, n_thorough):
     rng = ctx.rng
     lines, pending = [], []
+    fixed = [x for _ in range(3 if ctx.quick() else 8) for x in slow_scenarios(rng)] if focus in ("C08", "all") else []
     for i in range(n_quick if ctx.quick() else n_thorough):
-        sc, evs = gen_scenario(rng, focus)
-        ode, spy, exc = eventsim.run_case(getattr(I, sc["method"]), sc["t0"], sc["tf"], sc["dt"], evs, sc["dense"])
+        sc, evs = fixed[i] if i < len(fixed) else gen_scenario(rng, focus)
+        ode, spy, exc = eventsim.run_case(method_class(sc["method"]), sc["t0"], sc["tf"], sc["dt"], evs, sc["dense"], omega=sc.get("omega", 1.0))
         analyse(ctx, sc, evs, ode, spy, exc, focus, lines, pending)
     outs = ctx.driver(lines)
     for (kind, inp, data), o in zip(pending, outs):
